@@ -264,6 +264,8 @@ impl RtpsWriterProxy {
         if self.must_send_acknacks() || !self.missing_changes().count() == 0 {
             self.set_must_send_acknacks(false);
             self.increment_acknack_count();
+            // A NACK_FRAG sent with this message must carry a count the writer has not seen yet
+            self.nack_frag_count = self.nack_frag_count.wrapping_add(1);
 
             let info_dst_submessage =
                 InfoDestinationSubmessage::new(self.remote_writer_guid().prefix());
